@@ -230,6 +230,12 @@ class Fn(object):
             for p in parts[1:]:
                 acc = "(EBin BAdd %s %s)" % (acc, p)
             return acc
+        if isinstance(e, ast.DictComp):
+            if len(e.generators) == 1:
+                g = e.generators[0]
+                if not g.ifs and not g.is_async and isinstance(g.target, ast.Name):
+                    return "(EDictComp %s %s %s %s)" % (self.ex(e.key), self.ex(e.value), coq_str(g.target.id), self.ex(g.iter))
+            return self.eunk(e)
         if isinstance(e, (ast.GeneratorExp, ast.ListComp)):
             if len(e.generators) == 1:
                 g = e.generators[0]
@@ -274,6 +280,8 @@ class Fn(object):
             return "(EJoin %s)" % self.ex(e.args[0])
         # methods of local objects
         if isinstance(f, ast.Attribute) and self.is_local(f.value) or (isinstance(f, ast.Attribute) and isinstance(f.value, (ast.Subscript, ast.Call))):
+            if f.attr == "values" and nargs == 0 and not nkw and self.is_local(f.value):
+                return "(EValues %s)" % self.ex(f.value)
             if f.attr == "copy" and nargs == 0 and not nkw and self.is_local(f.value):
                 return "(ECopy %s)" % self.ex(f.value)
             if f.attr == "get" and nargs in (1, 2) and not nkw:
